@@ -13,6 +13,10 @@ def typedToJson : Typed → Json
   | .text s => Json.mkObj [("k", "text"), ("v", l2s s)]
   | .unmodelled => Json.mkObj [("k", "unmodelled")]
 
+def kindName : Typed → String
+  | .null => "null" | .bool _ => "bool" | .int _ => "int" | .float .. => "float"
+  | .text _ => "text" | .unmodelled => "unmodelled"
+
 /-- The regex oracle from a table `[[pattern, text, true|false|null], …]`; a pair that is not in
 the table is a protocol error (reported through `missing`). -/
 def rxTable (j : Json) : List (Str × Str × Option Bool) :=
@@ -56,18 +60,19 @@ def handle (op : String) (j : Json) : Except String Json := do
     -- {"h": scalar} ↦ str(typed_value(h)) (the text the regex / prefix tests act on), str(h)
     let h ← scalarOfJson (← j.getObjVal? "h")
     let ty := typedOfScalar h
-    pure (Json.mkObj [("typed", typedToJson ty), ("text", l2s ty.pyStr), ("str", l2s (pyStr h))])
+    pure (Json.mkObj [("typed", typedToJson ty), ("text", l2s (pyStr h))])
   | "match" =>
     -- {"m": METHOD, "h": scalar, "t": term, "rx": table} ↦ model and specification answers
     let m ← methodOfName (← getStr j "m")
     let h ← scalarOfJson (← j.getObjVal? "h")
     let t := s2l (← getStr j "t")
     let tbl := rxTable j
-    if m = .regex && !(rxHas tbl t (typedOfScalar h).pyStr) && (typedOfScalar h) ≠ .unmodelled
+    if m = .regex && !(rxHas tbl t (pyStr h)) && (typedOfScalar h) ≠ .unmodelled
         && typedValue t ≠ .unmodelled then
-      throw s!"regex oracle has no answer for pattern {l2s t} on text {l2s (typedOfScalar h).pyStr}"
+      throw s!"regex oracle has no answer for pattern {l2s t} on text {l2s (pyStr h)}"
     pure (Json.mkObj [("model", outToJson (searchMatches (rxOf tbl) m h t)),
-                      ("spec", specToJson (Spec.matches (rxOf tbl) m h t))])
+                      ("spec", specToJson (Spec.matches (rxOf tbl) m h t)),
+                      ("hk", kindName (typedOfScalar h)), ("tk", kindName (typedValue t))])
   | "match2" =>
     -- scalar needle, as the keyword searches call it
     let m ← methodOfName (← getStr j "m")
